@@ -198,47 +198,107 @@ func (c *Ctx) checkLangViews() {
 	key := ssaFuncKey(fn)
 	// the version atom: key of the range over p0
 	atom := ""
-	for _, f := range edgeFacts(fn) {
-		if strings.HasPrefix(f.Fact, "next(range(p0))#1 == ") {
-			atom = "next(range(p0))#1"
+	for _, in := range fnInstrs(fn) {
+		if ex, ok := in.(*ssa.Extract); ok && ex.Index == 1 && desc(ex) == atom2trace() {
+			atom = atom2trace()
 		}
 	}
 	if atom == "" {
 		c.Undecided("%s: version variable not recognised", key)
 		return
 	}
-	// stores of tag / params into the langView literal
-	var tagV, parV ssa.Value
-	for _, in := range fnInstrs(fn) {
-		st, ok := in.(*ssa.Store)
-		if !ok {
+	// where the langView entries are built: EncodeLangViews itself or a helper it calls once with the version
+	type literal struct {
+		al       *ssa.Alloc
+		tag, par ssa.Value
+	}
+	builder := fn
+	var lits []literal
+	for _, g := range closureFuncs(fn, 1) {
+		if g.Parent() != nil {
 			continue
 		}
-		fa, ok := st.Addr.(*ssa.FieldAddr)
-		if !ok || !strings.HasSuffix(typeStr(fa.X.Type()), "langView") {
-			continue
+		byAlloc := map[*ssa.Alloc]*literal{}
+		var order []*ssa.Alloc
+		for _, in := range fnInstrs(g) {
+			st, ok := in.(*ssa.Store)
+			if !ok {
+				continue
+			}
+			fa, ok := st.Addr.(*ssa.FieldAddr)
+			if !ok || !strings.HasSuffix(typeStr(fa.X.Type()), "langView") {
+				continue
+			}
+			al, _ := fa.X.(*ssa.Alloc)
+			if al == nil {
+				continue
+			}
+			if byAlloc[al] == nil {
+				byAlloc[al] = &literal{al: al}
+				order = append(order, al)
+			}
+			switch fieldName(fa.X.Type(), fa.Field) {
+			case "tag":
+				byAlloc[al].tag = st.Val
+			case "params":
+				byAlloc[al].par = st.Val
+			}
 		}
-		switch fieldName(fa.X.Type(), fa.Field) {
-		case "tag":
-			tagV = st.Val
-		case "params":
-			parV = st.Val
+		if len(order) > 0 {
+			builder = g
+			lits = nil
+			for _, al := range order {
+				lits = append(lits, *byAlloc[al])
+			}
+			break
 		}
 	}
-	tp, ok1 := tagV.(*ssa.Phi)
-	pp, ok2 := parV.(*ssa.Phi)
-	if !ok1 || !ok2 {
-		c.Undecided("%s: tag/params are not merged per version as expected", key)
+	if len(lits) == 0 {
+		c.Undecided("%s: no langView entry with tag and params is built here or in a helper", key)
 		return
 	}
+	bval := func(v int64) map[string]int64 { return map[string]int64{atom: v} }
+	if builder != fn {
+		cs := callersInPkg(builder)
+		if len(cs) != 1 || cs[0].Parent() != fn {
+			c.Undecided("%s: the entry builder %s is not called exactly once from here", key, builder.Name())
+			return
+		}
+		pi := -1
+		for i, a := range cs[0].Common().Args {
+			if desc(a) == atom || trace(a) == atom {
+				pi = i
+			}
+		}
+		if pi < 0 {
+			c.Undecided("%s: the entry builder %s does not receive the version", key, builder.Name())
+			return
+		}
+		bval = func(v int64) map[string]int64 { return map[string]int64{fmt.Sprintf("p%d", pi): v} }
+		// what is collected is the builder's result
+		collected := false
+		for _, ci := range allCalls(fn) {
+			if b, isB := ci.Common().Value.(*ssa.Builtin); isB && b.Name() == "append" && strings.Contains(typeStr(ci.Common().Args[0].Type()), "langView") && len(ci.Common().Args) > 1 {
+				srcs := map[string]bool{}
+				sliceElemSources(ci.Common().Args[1], 0, srcs)
+				for sname := range srcs {
+					if strings.Contains(sname, builder.Name()+"(") {
+						collected = true
+					}
+				}
+			}
+		}
+		c.Check(collected, "langviews-entry", key+":collects-built-entry", fn.Pos(), "the entries collected are the ones "+builder.Name()+" builds", "the entries collected are not the ones built by "+builder.Name())
+	}
+	tr := func(v ssa.Value) string { return traceIP(fn, v) }
 	bytesOf := func(v ssa.Value) string {
 		s, ok := v.(*ssa.Slice)
 		if !ok {
-			return trace(v)
+			return tr(v)
 		}
 		al, ok := s.X.(*ssa.Alloc)
 		if !ok {
-			return trace(v)
+			return tr(v)
 		}
 		type kv struct {
 			i int64
@@ -250,7 +310,7 @@ func (c *Ctx) checkLangViews() {
 				k, _ := ia.Index.(*ssa.Const)
 				for _, rr := range *ia.Referrers() {
 					if st, ok := rr.(*ssa.Store); ok && k != nil {
-						parts = append(parts, kv{k.Int64(), trace(st.Val)})
+						parts = append(parts, kv{k.Int64(), tr(st.Val)})
 					}
 				}
 			}
@@ -264,105 +324,196 @@ func (c *Ctx) checkLangViews() {
 		return "bytes{" + strings.Join(out, ",") + "}"
 	}
 	for v := int64(0); v <= 3; v++ {
-		reach := psReachVal(fn, []*ssa.BasicBlock{fn.Blocks[0]}, nil, map[string]int64{atom: v})
-		check := func(ph *ssa.Phi, what string, want func(string) bool, wantDesc string) {
-			n := 0
+		reach := psReachVal(builder, []*ssa.BasicBlock{builder.Blocks[0]}, nil, bval(v))
+		edges := lastPsEdges
+		// values a stored field can have under this version: a merged variable contributes the edges actually taken
+		var expand func(x ssa.Value, d int) []ssa.Value
+		expand = func(x ssa.Value, d int) []ssa.Value {
+			ph, isPhi := x.(*ssa.Phi)
+			if !isPhi || d > 3 {
+				return []ssa.Value{x}
+			}
+			var out []ssa.Value
 			for i, e := range ph.Edges {
 				pred := ph.Block().Preds[i]
-				if !reach[pred] || !lastPsEdges[[2]*ssa.BasicBlock{pred, ph.Block()}] {
-					continue
+				if reach[pred] && edges[[2]*ssa.BasicBlock{pred, ph.Block()}] {
+					out = append(out, expand(e, d+1)...)
 				}
+			}
+			return out
+		}
+		check := func(vals []ssa.Value, pos token.Pos, what string, want func(string) bool, wantDesc string) int {
+			n := 0
+			for _, e := range vals {
 				n++
 				var got string
 				if what == "key" {
 					got = bytesOf(e)
 				} else {
-					got = trace(e)
+					got = tr(e)
 				}
-				c.Check(want(got), "langviews-entry", fmt.Sprintf("%s:version=%d:%s", key, v, what), ph.Pos(), wantDesc, fmt.Sprintf("for Plutus version index %d the language-view %s is %s, the ledger defines %s", v, what, shortArg(got), wantDesc))
+				c.Check(want(got), "langviews-entry", fmt.Sprintf("%s:version=%d:%s", key, v, what), pos, wantDesc, fmt.Sprintf("for Plutus version index %d the language-view %s is %s, the ledger defines %s", v, what, shortArg(got), wantDesc))
 			}
-			if n == 0 {
-				c.Bad("langviews-entry", fmt.Sprintf("%s:version=%d:%s", key, v, what), ph.Pos(), "no %s is produced for Plutus version index %d", what, v)
+			return n
+		}
+		nK, nV := 0, 0
+		for _, l := range lits {
+			if !reach[l.al.Block()] || l.tag == nil || l.par == nil {
+				continue
+			}
+			// the literal's stores are in its block or later; only literals whose stores are reachable count
+			if v == 0 {
+				nK += check(expand(l.tag, 0), l.al.Pos(), "key", func(s string) bool { return s == "bytes{65:byte,0:byte}" || s == "bytes{65,0}" }, "the two bytes 0x41 0x00 (double-serialised 0)")
+				nV += check(expand(l.par, 0), l.al.Pos(), "value", func(s string) bool {
+					return strings.HasPrefix(s, "Encode(Encode(") && strings.HasSuffix(s, "#0)#0") && c.indefListArg(builder)
+				}, "Encode(Encode(indefinite-length list of the costs)) — a byte string wrapping the indefinite list")
+			} else {
+				nK += check(expand(l.tag, 0), l.al.Pos(), "key", func(s string) bool { return s == "bytes{"+atom2trace()+"}" }, "the single byte of the version")
+				nV += check(expand(l.par, 0), l.al.Pos(), "value", func(s string) bool {
+					return s == "Encode(lookup(p1,next(range(p0))#1)#0)#0"
+				}, "Encode(cost model list) without wrapping")
 			}
 		}
-		if v == 0 {
-			check(tp, "key", func(s string) bool { return s == "bytes{65:byte,0:byte}" || s == "bytes{65,0}" }, "the two bytes 0x41 0x00 (double-serialised 0)")
-			check(pp, "value", func(s string) bool {
-				return strings.HasPrefix(s, "Encode(Encode(") && strings.HasSuffix(s, "#0)#0") && c.indefListArg(fn)
-			}, "Encode(Encode(indefinite-length list of the costs)) — a byte string wrapping the indefinite list")
-		} else {
-			check(tp, "key", func(s string) bool { return s == "bytes{"+atom2trace()+"}" }, "the single byte of the version")
-			check(pp, "value", func(s string) bool {
-				return s == "Encode(lookup(p1,next(range(p0))#1)#0)#0"
-			}, "Encode(cost model list) without wrapping")
+		if nK == 0 || nV == 0 {
+			c.Bad("langviews-entry", fmt.Sprintf("%s:version=%d:produced", key, v), fn.Pos(), "no language-view entry is produced for Plutus version index %d", v)
 		}
 	}
 	// sorted before assembly
 	var sortCall ssa.CallInstruction
+	sortKind := ""
 	for _, ci := range allCalls(fn) {
-		if calleeName(ci.Common()) == "sort.Slice" || calleeName(ci.Common()) == "sort.SliceStable" {
-			sortCall = ci
+		switch cn := calleeName(ci.Common()); {
+		case cn == "sort.Slice" || cn == "sort.SliceStable":
+			sortCall, sortKind = ci, "less"
+		case strings.HasPrefix(cn, "slices.SortFunc") || strings.HasPrefix(cn, "slices.SortStableFunc"):
+			sortCall, sortKind = ci, "cmp"
 		}
 	}
 	if sortCall == nil {
 		c.Bad("langviews-sorted", key, fn.Pos(), "the language views are not sorted before being written: keys are emitted in map-iteration order")
-	} else {
-		okCmp := false
-		if mc, ok := sortCall.Common().Args[1].(*ssa.MakeClosure); ok {
-			cl := mc.Fn.(*ssa.Function)
-			for _, b := range cl.Blocks {
-				if r, ok := b.Instrs[len(b.Instrs)-1].(*ssa.Return); ok {
-					if bo, ok := r.Results[0].(*ssa.BinOp); ok && bo.Op == token.LSS && desc(bo.Y) == "0" {
-						t := trace(bo.X)
-						okCmp = strings.HasPrefix(t, "ShortLex(tag<free:views[],tag<free:views[])")
-						if call, isCall := bo.X.(*ssa.Call); okCmp && isCall {
-							for k := 0; k < 2; k++ {
-								var idx ssa.Value
-								if u, isU := call.Call.Args[k].(*ssa.UnOp); isU {
-									if fa, isFA := u.X.(*ssa.FieldAddr); isFA {
-										idx = indexOf(fa.X)
-									}
+		return
+	}
+	okCmp := false
+	var cl *ssa.Function
+	switch x := sortCall.Common().Args[1].(type) {
+	case *ssa.MakeClosure:
+		cl, _ = x.Fn.(*ssa.Function)
+	case *ssa.Function:
+		cl = x
+	case *ssa.ChangeType:
+		cl, _ = x.X.(*ssa.Function)
+	}
+	if cl != nil {
+		for _, b := range cl.Blocks {
+			r, ok := b.Instrs[len(b.Instrs)-1].(*ssa.Return)
+			if !ok {
+				continue
+			}
+			switch sortKind {
+			case "cmp":
+				// func(x, y langView) int { return ShortLex(x.tag, y.tag) }
+				okCmp = trace(r.Results[0]) == "ShortLex(tag<p0,tag<p1)"
+			case "less":
+				if bo, ok := r.Results[0].(*ssa.BinOp); ok && bo.Op == token.LSS && desc(bo.Y) == "0" {
+					t := trace(bo.X)
+					okCmp = strings.HasPrefix(t, "ShortLex(tag<free:views[],tag<free:views[])")
+					if call, isCall := bo.X.(*ssa.Call); okCmp && isCall {
+						for k := 0; k < 2; k++ {
+							var idx ssa.Value
+							if u, isU := call.Call.Args[k].(*ssa.UnOp); isU {
+								if fa, isFA := u.X.(*ssa.FieldAddr); isFA {
+									idx = indexOf(fa.X)
 								}
-								if idx != ssa.Value(cl.Params[k]) {
-									okCmp = false
-								}
+							}
+							if idx != ssa.Value(cl.Params[k]) {
+								okCmp = false
 							}
 						}
 					}
 				}
 			}
 		}
-		c.Check(okCmp, "langviews-sorted", key+":comparator", sortCall.Pos(), "less(i,j) = ShortLex(views[i].tag, views[j].tag) < 0", "the sort comparator is not ShortLex on the keys of elements i and j")
-		// assembly after the sort: every append of tag/params into the result is dominated by the sort call
-		nAsm := 0
-		okDom := true
-		var tagApp, parApp *ssa.Call
-		for _, ci := range allCalls(fn) {
-			b, isB := ci.Common().Value.(*ssa.Builtin)
-			if !isB || b.Name() != "append" {
-				continue
+	}
+	c.Check(okCmp, "langviews-sorted", key+":comparator", sortCall.Pos(), "entries are ordered by ShortLex on their keys", "the sort comparator is not ShortLex on the keys of the two elements compared")
+	// assembly after the sort: inside one loop over the views, key then value are emitted onto the same accumulator
+	type emit struct {
+		call *ssa.Call
+		what string // tag / params
+		ord  int    // position within one variadic append
+	}
+	var emits []emit
+	for _, ci := range allCalls(fn) {
+		b, isB := ci.Common().Value.(*ssa.Builtin)
+		if !isB || b.Name() != "append" || len(ci.Common().Args) < 2 {
+			continue
+		}
+		call, _ := ci.(*ssa.Call)
+		if call == nil {
+			continue
+		}
+		classify := func(t string) string {
+			switch {
+			case strings.HasPrefix(t, "tag<"):
+				return "tag"
+			case strings.HasPrefix(t, "params<"):
+				return "params"
 			}
-			at := trace(ci.Common().Args[1])
-			if strings.HasPrefix(at, "tag<") || strings.HasPrefix(at, "params<") {
-				nAsm++
-				if !sortCall.Block().Dominates(ci.Block()) || sortCall.Block() == ci.Block() {
-					okDom = false
-				}
-				if strings.HasPrefix(at, "tag<") {
-					tagApp, _ = ci.(*ssa.Call)
-				} else {
-					parApp, _ = ci.(*ssa.Call)
+			return ""
+		}
+		arg := ci.Common().Args[1]
+		if w := classify(trace(arg)); w != "" {
+			emits = append(emits, emit{call, w, 0}) // append(acc, v.tag...)
+			continue
+		}
+		// append(parts, v.tag, v.params): a literal [][]byte
+		if sl, ok := arg.(*ssa.Slice); ok {
+			if al, ok := sl.X.(*ssa.Alloc); ok {
+				for _, r := range *al.Referrers() {
+					ia, ok := r.(*ssa.IndexAddr)
+					if !ok {
+						continue
+					}
+					k, _ := ia.Index.(*ssa.Const)
+					for _, rr := range *ia.Referrers() {
+						if st, ok := rr.(*ssa.Store); ok && k != nil {
+							if w := classify(trace(st.Val)); w != "" {
+								emits = append(emits, emit{call, w, int(k.Int64())})
+							}
+						}
+					}
 				}
 			}
 		}
-		c.Check(nAsm == 2 && okDom, "langviews-sorted", key+":before-assembly", sortCall.Pos(), "keys and values are written after sorting", "the entries are written before (or independently of) the sort")
-		okOrder := tagApp != nil && parApp != nil && parApp.Call.Args[0] == ssa.Value(tagApp) && inLoop(tagApp.Block())
-		c.Check(okOrder, "langviews-assembly", key+":key-then-value", fn.Pos(), "each entry is written as key then value, for every view", "entries are not written as key followed by value for every view")
-		// views are not appended to after sorting
-		for _, ci := range allCalls(fn) {
-			if b, isB := ci.Common().Value.(*ssa.Builtin); isB && b.Name() == "append" && strings.Contains(typeStr(ci.Common().Args[0].Type()), "langView") {
-				c.Check(!sortCall.Block().Dominates(ci.Block()), "langviews-sorted", key+":no-late-entries", ci.Pos(), "views are collected before sorting", "a view is added after the list was sorted")
-			}
+	}
+	var tagE, parE *emit
+	for i := range emits {
+		switch emits[i].what {
+		case "tag":
+			tagE = &emits[i]
+		case "params":
+			parE = &emits[i]
+		}
+	}
+	okDom := len(emits) == 2 && tagE != nil && parE != nil
+	for _, e := range emits {
+		if !sortCall.Block().Dominates(e.call.Block()) || sortCall.Block() == e.call.Block() {
+			okDom = false
+		}
+	}
+	c.Check(okDom, "langviews-sorted", key+":before-assembly", sortCall.Pos(), "keys and values are written after sorting", "the entries are written before (or independently of) the sort")
+	okOrder := false
+	if tagE != nil && parE != nil && inLoop(tagE.call.Block()) {
+		if tagE.call == parE.call {
+			okOrder = tagE.ord < parE.ord
+		} else {
+			okOrder = parE.call.Call.Args[0] == ssa.Value(tagE.call)
+		}
+	}
+	c.Check(okOrder, "langviews-assembly", key+":key-then-value", fn.Pos(), "each entry is written as key then value, for every view", "entries are not written as key followed by value for every view")
+	// views are not appended to after sorting
+	for _, ci := range allCalls(fn) {
+		if b, isB := ci.Common().Value.(*ssa.Builtin); isB && b.Name() == "append" && strings.Contains(typeStr(ci.Common().Args[0].Type()), "langView") {
+			c.Check(!sortCall.Block().Dominates(ci.Block()), "langviews-sorted", key+":no-late-entries", ci.Pos(), "views are collected before sorting", "a view is added after the list was sorted")
 		}
 	}
 	// map header: 0xa0 + len for fewer than 24 entries
@@ -419,6 +570,54 @@ func (c *Ctx) checkShortLex() {
 		if w, ok := want[f.Fact]; ok {
 			got[f.Fact] = retOf(f.From.Succs[f.Succ]) == w
 			lenBlocks = append(lenBlocks, f.From)
+		}
+	}
+	// library form: if c := cmp.Compare(len(a), len(b)); c != 0 { return c }; return bytes.Compare(a, b)
+	{
+		var lenCmp *ssa.Call
+		for _, ci := range allCalls(fn) {
+			if cl, isCall := ci.(*ssa.Call); isCall && strings.HasPrefix(calleeName(ci.Common()), "cmp.Compare") && len(ci.Common().Args) == 2 && trace(ci.Common().Args[0]) == "len(p0)" && trace(ci.Common().Args[1]) == "len(p1)" {
+				lenCmp = cl
+			}
+		}
+		if lenCmp != nil {
+			okLen, okBytes, okOrder := false, false, false
+			var zeroEdgeTo *ssa.BasicBlock
+			for _, f := range edgeFacts(fn) {
+				iff := f.From.Instrs[len(f.From.Instrs)-1].(*ssa.If)
+				bo, isBo := iff.Cond.(*ssa.BinOp)
+				if !isBo || bo.X != ssa.Value(lenCmp) || desc(bo.Y) != "0" {
+					continue
+				}
+				nonZero := (bo.Op == token.NEQ && f.Succ == 0) || (bo.Op == token.EQL && f.Succ == 1)
+				s := f.From.Succs[f.Succ]
+				if nonZero {
+					if r, isR := s.Instrs[len(s.Instrs)-1].(*ssa.Return); isR && returnedValue(r, 0) == ssa.Value(lenCmp) {
+						okLen = true
+					}
+				} else {
+					zeroEdgeTo = s
+				}
+			}
+			if zeroEdgeTo != nil {
+				for _, b := range fn.Blocks {
+					r, isR := b.Instrs[len(b.Instrs)-1].(*ssa.Return)
+					if !isR || !(b == zeroEdgeTo || zeroEdgeTo.Dominates(b)) {
+						continue
+					}
+					if cl, isCall := returnedValue(r, 0).(*ssa.Call); isCall && calleeName(&cl.Call) == "bytes.Compare" && trace(cl.Call.Args[0]) == "p0" && trace(cl.Call.Args[1]) == "p1" {
+						okBytes = true
+						okOrder = lenCmp.Block().Dominates(cl.Block())
+					}
+				}
+			}
+			if okLen && okBytes {
+				c.Ok("shortlex-order", key+":length-first", fn.Pos(), "a non-zero cmp.Compare(len(a), len(b)) is the result: shorter sorts first")
+				c.Ok("shortlex-order", key+":bytewise", fn.Pos(), "equal lengths are ordered by bytes.Compare(a, b)")
+				c.Check(okOrder, "shortlex-order", key+":length-before-bytes", fn.Pos(), "length decides before any byte is compared", "bytes are compared before the lengths have been compared")
+				c.Ok("shortlex-order", key+":equal", fn.Pos(), "equal keys compare 0 (bytes.Compare)")
+				return
+			}
 		}
 	}
 	c.Check(got["len(p0) < len(p1)"] && got["len(p0) > len(p1)"], "shortlex-order", key+":length-first", fn.Pos(), "shorter sorts first", "ShortLex does not order by length first (shorter < longer)")
